@@ -47,12 +47,33 @@ DESC = {
     "C18-B": ("trait route checks rk support before everything else: different status for multi-fault requests", ""),
     "C19-A": ("RwLock wrappers hold the read guard while calling their own `get_info` on lookup errors: deadlock with a queued writer", "assertions without allow list + failing, suspending lookups added (the scheduler now finds the deadlock, with the schedule as witness)"),
     "C19-B": ("`MemoryStore::save_credential` evicts other credentials of the RP (`&&` for `||`)", ""),
+    # ---- round 2 (seeders were told what round 1 had produced and asked for different sites / triggers)
+    "C02-C": ("AAGUID zeroed in the attestation object's copy of the authenticator data only (non-zero AAGUID)", ""),
+    "C02-D": ("attestation preference direct/enterprise forwards the authenticator's `fmt: \"None\"` (capital N)", "attestation conveyance preference added to the registration generator"),
+    "C03-C": ("origin formatted up to `Position::AfterHost`: a non-default port is lost from the client data", ""),
+    "C03-D": ("user handle withheld when the assertion carries no UV flag", ""),
+    "C04-C": ("exclude-list match reported before the consent result is examined", ""),
+    "C04-D": ("a failing validation step treated as 'no presence, no verification': with up=uv=false the assertion is signed", ""),
+    "C07-C": ("`user_handle.take()` hoisted above the counter update: the record written back has lost its user handle", ""),
+    "C07-D": ("`save_credential` only when the credential is discoverable: non-discoverable registrations succeed without the store ever accepting them", ""),
+    "C09-C": ("per-credential salt lookup compares ids with `zip` (no length check): a key that is a prefix / extension of the used id matches", "allow lists and per-credential keys that are proper prefixes / extensions of the used id added (client and CTAP level)"),
+    "C09-D": ("present-but-empty `allowCredentials` slips past both per-credential checks", ""),
+    "C13-C": ("two adjacent optional members swapped in declaration order: keys 7 before 6 when both present", ""),
+    "C13-D": ("`skip_serializing_if = Not::not` on `up`, whose default is true: `up=false` is dropped and reads back as true", ""),
+    "C14-C": ("`map_while` for `filter_map`: the first unknown `pubKeyCredParams` entry cuts off everything after it", ""),
+    "C14-D": ("standard base64 mapped onto the url alphabet with `+`/`/` crossed", ""),
+    "C15-C": ("completing CTAPHID continuation packet copied into a 59-byte buffer unchecked: panic for packets > 64 bytes", ""),
+    "C15-D": ("padding stripped with `split_at(len-2)`: panic when that offset is inside a multi-byte character", ""),
+    "C16-C": ("a single-packet INIT message clears every channel's partial message", ""),
+    "C16-D": ("`entry().or_insert` on a reused channel: the abandoned partial message wins over the new one", "transfers abandoned after k packets followed by a new message on the same channel added"),
+    "C19-C": ("counter re-read before the increment re-runs the *query* instead of looking up the selected credential: with an id-less request and a newest-first store another credential's counter is used", "sequential warm-up assertions on every seeded credential + a conforming newest-first store answering id-less lookups added"),
+    "C19-D": ("counter update result dropped via `.ok()` in a helper: a refused update no longer fails the assertion", "reference-store configurations that refuse one counter update added"),
 }
 
 
 def main():
     rows = []
-    for d in sorted(glob.glob(os.path.join(ROOT, "seeded", "C*-[AB]"))):
+    for d in sorted(glob.glob(os.path.join(ROOT, "seeded", "C*-[ABCD]"))):
         name = os.path.basename(d)
         meta = json.load(open(os.path.join(d, "meta.json")))
         own = (meta.get("detection") or {}).get(meta["property"], {})
